@@ -198,7 +198,7 @@ func runC10(c *engine.Ctx) {
 
 	// ---- R10 release closures are queued only after the matching registration succeeded (shared with C13.R2) ----
 	c.Rule("R10", "in server/proxy a closure that un-registers a route, listener or group membership is appended to closeFuncs only on paths where the matching registration returned nil: a refused (duplicate) registration must leave the owner's entry alone")
-	c.Floor(checkCleanupAfterAcquire(c), 4)
+	c.Floor(checkCleanupAfterAcquire(c), 2)
 
 	// ---- R11 ----
 	checkQueuedClosureCaptures(c, "R11")
@@ -268,7 +268,7 @@ func checkQueuedClosureCaptures(c *engine.Ctx, rule string) {
 			}
 		})
 	}
-	c.Floor(n, 6)
+	c.Floor(n, 2)
 }
 
 // writtenAfter returns a store to the variable al (or one of its fields) that can execute after the closure mc was
